@@ -33,6 +33,9 @@ const (
 	vfC18SigRejected   = "resync-rejected-winning-leaf-hides-document"
 	vfC18SigLateReject = "resync-rejected-leaf-keeps-role-grants"
 	vfC18SigLeafSkipped = "resync-nonwinning-leaf-channels-not-persisted-when-winner-unchanged"
+
+	// class of the cases in which the rejected-winner shape was generated and rewritten (not a finding)
+	vfC18OutOfDomainRejected = "out-of-domain:rejected-winner-with-accepted-sibling"
 )
 
 var (
@@ -736,6 +739,9 @@ type vfC18DB struct {
 	coll  *DatabaseCollectionWithUser
 	scope string
 	cname string
+	// clone, if set, supplies the bucket handed to NewDatabaseContext (the racing job puts the fault
+	// store around the pool bucket); nil = the pool bucket itself
+	clone func() base.Bucket
 }
 
 func vfC18NewDB(t testing.TB, deflt bool) *vfC18DB {
@@ -759,7 +765,11 @@ func (d *vfC18DB) open(fn string, online bool) (err error) {
 		opts.Scopes = GetScopesOptions(d.t, d.tb, 1)
 	}
 	ctx := base.TestCtx(d.t)
-	dbc, err := NewDatabaseContext(ctx, "db", d.tb.NoCloseClone(), false, opts)
+	var bucket base.Bucket = d.tb.NoCloseClone()
+	if d.clone != nil {
+		bucket = d.clone()
+	}
+	dbc, err := NewDatabaseContext(ctx, "db", bucket, false, opts)
 	if err != nil {
 		return fmt.Errorf("NewDatabaseContext: %w", err)
 	}
@@ -897,22 +907,30 @@ func (d *vfC18DB) load(s *vfC18Spec, fn vfC18Fn, late bool) error {
 			if r.Late != late {
 				continue
 			}
-			_, got, err := d.coll.PutExistingRevWithBody(d.ctx, doc.ID, r.body(), doc.history(r.ID), false, ExistingVersionWithUpdateToHLV)
-			wantReject := fn.eval(r).Rejected
-			if err != nil {
-				status, _ := base.ErrorAsHTTPStatus(err)
-				if wantReject && status == 403 {
-					continue
-				}
-				return fmt.Errorf("PutExistingRevWithBody(%s %s) under %s: %v (model rejects=%v)", doc.ID, r.ID, fn, err, wantReject)
-			}
-			if wantReject {
-				return fmt.Errorf("PutExistingRevWithBody(%s %s) under %s was accepted, model says rejected", doc.ID, r.ID, fn)
-			}
-			if got != r.ID {
-				return fmt.Errorf("PutExistingRevWithBody(%s) stored %q, wanted %q", doc.ID, got, r.ID)
+			if err := d.putRev(doc, r, fn); err != nil {
+				return err
 			}
 		}
+	}
+	return nil
+}
+
+// putRev pushes one revision of doc (which must contain r and its ancestors) with its given id.
+func (d *vfC18DB) putRev(doc vfC18Doc, r vfC18Rev, fn vfC18Fn) error {
+	_, got, err := d.coll.PutExistingRevWithBody(d.ctx, doc.ID, r.body(), doc.history(r.ID), false, ExistingVersionWithUpdateToHLV)
+	wantReject := fn.eval(r).Rejected
+	if err != nil {
+		status, _ := base.ErrorAsHTTPStatus(err)
+		if wantReject && status == 403 {
+			return nil
+		}
+		return fmt.Errorf("PutExistingRevWithBody(%s %s) under %s: %v (model rejects=%v)", doc.ID, r.ID, fn, err, wantReject)
+	}
+	if wantReject {
+		return fmt.Errorf("PutExistingRevWithBody(%s %s) under %s was accepted, model says rejected", doc.ID, r.ID, fn)
+	}
+	if got != r.ID {
+		return fmt.Errorf("PutExistingRevWithBody(%s) stored %q, wanted %q", doc.ID, got, r.ID)
 	}
 	return nil
 }
@@ -939,11 +957,24 @@ type vfC18ResyncStats struct {
 // resync drives the real resync manager to completion the way POST /db/_resync does on an offline
 // database. Errors are infrastructure (InconclusiveErr when a bounded wait expired).
 func (d *vfC18DB) resync(regen bool) (st vfC18ResyncStats, err error) {
+	return d.resyncWith(d.ctx, regen, nil)
+}
+
+// resyncWith: startCtx is the request context handed to ResyncManager.Start (the manager derives the
+// context of its run from it, values included); beforeStart, if set, runs after the database state
+// went to "resyncing" and before the manager is started.
+func (d *vfC18DB) resyncWith(startCtx context.Context, regen bool, beforeStart func() error) (st vfC18ResyncStats, err error) {
 	if !atomic.CompareAndSwapUint32(&d.dbc.State, DBOffline, DBResyncing) {
 		return st, fmt.Errorf("database is not offline (state %d)", atomic.LoadUint32(&d.dbc.State))
 	}
+	if beforeStart != nil {
+		if err := beforeStart(); err != nil {
+			atomic.CompareAndSwapUint32(&d.dbc.State, DBResyncing, DBOffline)
+			return st, err
+		}
+	}
 	mgr := d.dbc.ResyncManager
-	if err := mgr.Start(d.ctx, ResyncOptions{RegenerateSequences: regen}); err != nil {
+	if err := mgr.Start(startCtx, ResyncOptions{RegenerateSequences: regen}); err != nil {
 		atomic.CompareAndSwapUint32(&d.dbc.State, DBResyncing, DBOffline)
 		return st, fmt.Errorf("ResyncManager.Start: %w", err)
 	}
@@ -1242,6 +1273,15 @@ func vfC18Run(t *testing.T, rec *kit.Rec, rt *rapid.T) {
 	for round := 0; round < 8; round++ {
 		changed := false
 		for _, sig := range s.shapes() {
+			if sig == vfC18SigRejected {
+				// out of domain, unconditionally (DESIGN §8.5): resync cannot remove a revision; for a
+				// rejected winning revision the new function produces nothing and that is what is stored.
+				// The "replay the writes" database has another winner there, which the statement does not promise.
+				excl = append(excl, vfC18OutOfDomainRejected)
+				s.avoid(sig)
+				changed = true
+				continue
+			}
 			if kit.Known("C18", sig) {
 				rec.Excluded(sig)
 				excl = append(excl, "excluded:"+sig)
@@ -1313,9 +1353,6 @@ func vfC18Repros() []vfC18Repro {
 		{vfC18SigRegen, &vfC18Spec{Deflt: true, A: vfC18Fn{Chan: "c1", Acc: "g1"}, B: vfC18Fn{Chan: "c1", Acc: "g2"}, Regen: true, Users: users(),
 			Docs: []vfC18Doc{{ID: "d1", Kind: "linear", Revs: []vfC18Rev{live("1-a", "", vfC18Body{N: 1, C1: []string{"X"},
 				G1: []vfC18Grant{{Who: []string{"u1"}, What: []string{"X"}}}, G2: []vfC18Grant{{Who: []string{"u1"}, What: []string{"Y"}}}})}}}}},
-		{vfC18SigRejected, &vfC18Spec{Deflt: true, A: vfC18Fn{Chan: "c1"}, B: vfC18Fn{Chan: "c1", Rej: "j1"}, Users: users("X"),
-			Docs: []vfC18Doc{{ID: "d1", Kind: "linear", Revs: []vfC18Rev{live("1-a", "", vfC18Body{N: 1, C1: []string{"X"}}),
-				live("2-b", "1-a", vfC18Body{N: 2, C1: []string{"X"}, J1: true})}}}}},
 		{vfC18SigLateReject, &vfC18Spec{Deflt: true, A: vfC18Fn{Chan: "c1"}, B: vfC18Fn{Chan: "c1", Rol: "p1", Rej: "j1", RejLate: true}, Users: users(),
 			Roles: []vfC18Principal{{Name: "r1", Chans: []string{"X"}}},
 			Docs: []vfC18Doc{{ID: "d1", Kind: "linear", Revs: []vfC18Rev{live("1-a", "", vfC18Body{N: 1, J1: true,
